@@ -821,56 +821,122 @@ def reference_loads(m):
         return False, str(e)[:200]
 
 
-def judge_model(m, want_ort=True, custom_keys=()):
-    """All model-free validity judges of C02 on a returned ModelProto. -> list of (kind, detail).
-    `custom_keys`: (domain, op_type) of user-defined operators of the program - they need no
-    FunctionProto, and no runtime has kernels for them (loading is then not attempted)."""
-    custom_keys = set(custom_keys)
+def _j_checker(m):
     import onnx
-    import onnx.shape_inference
 
-    bad = []
     try:
         onnx.checker.check_model(m, full_check=True)
     except Exception as e:  # noqa: BLE001
-        bad.append(("full-checker", str(e)[:300]))
+        return [("full-checker", str(e)[:300])]
+    return []
+
+
+def _j_strict(m):
+    import onnx.shape_inference
+
     try:
         onnx.shape_inference.infer_shapes(m, check_type=True, strict_mode=True, data_prop=True)
     except Exception as e:  # noqa: BLE001
-        bad.append(("strict-inference", str(e)[:300]))
-    for p in walk_model(m):
-        bad.append(("walker", p))
+        return [("strict-inference", str(e)[:300])]
+    return []
+
+
+def _j_struct(m, custom_keys):
+    """pure Python: walker + every used non-standard operator has a definition. -> (bad, uses_custom_ops)"""
+    bad = [("walker", p) for p in walk_model(m)]
     defined = {(f.domain, f.name) for f in m.functions}
     used = set(used_function_keys(m))
-    if used & custom_keys:
-        want_ort = False
     missing = sorted(used - defined - custom_keys)
     if missing:
         bad.append(("missing-function", ",".join(f"{d}:{n}" for d, n in missing)))
-    if want_ort:
-        try:
-            import onnxruntime as ort
+    return bad, bool(used & custom_keys)
 
-            so = ort.SessionOptions()
-            so.log_severity_level = 4
-            ort.InferenceSession(m.SerializeToString(), so, providers=["CPUExecutionProvider"])
-        except Exception as e:  # noqa: BLE001
-            # onnxruntime's support for (nested) functions is incomplete: a model with functions that ORT
-            # refuses but the ONNX reference runtime loads is recorded as runtime-unsupported, not a failure
-            ok_ref = False
-            if len(m.functions):
-                ok_ref, _ = reference_loads(m)
-            if ok_ref:
-                ORT_UNSUPPORTED.append(str(e)[:120])
-            else:
-                bad.append(("ort-load", str(e)[:300]))
-    return bad
+
+def _j_ort(m):
+    """-> (bad, unsupported notes)"""
+    try:
+        import onnxruntime as ort
+
+        so = ort.SessionOptions()
+        so.log_severity_level = 4
+        ort.InferenceSession(m.SerializeToString(), so, providers=["CPUExecutionProvider"])
+    except Exception as e:  # noqa: BLE001
+        # onnxruntime's support for (nested) functions is incomplete: a model with functions that ORT
+        # refuses but the ONNX reference runtime loads is recorded as runtime-unsupported, not a failure
+        ok_ref = False
+        if len(m.functions):
+            ok_ref, _ = reference_loads(m)
+        if ok_ref:
+            return [], [str(e)[:120]]
+        return [("ort-load", str(e)[:300])], []
+    return [], []
+
+
+def _judge_model_raw(m, want_ort, custom_keys):
+    bad = _j_checker(m) + _j_strict(m)
+    sb, uses_custom = _j_struct(m, custom_keys)
+    bad += sb
+    unsupported = []
+    if want_ort and not uses_custom:
+        ob, unsupported = _j_ort(m)
+        bad += ob
+    return bad, unsupported
+
+
+def judge_model(m, want_ort=True, custom_keys=()):
+    """All model-free validity judges of C02 on a returned ModelProto. -> list of (kind, detail).
+    `custom_keys`: (domain, op_type) of user-defined operators of the program - they need no
+    FunctionProto, and no runtime has kernels for them (loading is then not attempted).
+
+    The native judges (onnx checker, strict inference, onnxruntime, onnx.reference) run in a forked child: a C++
+    crash is a RESULT - `checker-aborted` / `runtime-aborted` - never a dead check. If the child dies, every judge is
+    run in a child of its own to name the one that aborts."""
+    from harness import lib_isolate as ISO
+
+    custom_keys = set(custom_keys)
+    try:
+        bad, unsupported = ISO.call(_judge_model_raw, m, want_ort, custom_keys)
+        ORT_UNSUPPORTED.extend(unsupported)
+        return [tuple(b) for b in bad]
+    except ISO.Aborted:
+        pass
+    except ISO.Stalled:
+        return []  # no verdict on a stalled judge (counted in lib_isolate.STATS)
+    except ISO.RemoteError as e:  # the judging code itself failed: reported, not hidden
+        return [("judge-error", str(e)[:300])]
+    bad = []
+    for kind, fn in (("full-checker", _j_checker), ("strict-inference", _j_strict)):
+        try:
+            bad += [tuple(b) for b in ISO.call(fn, m)]
+        except ISO.Aborted as e:
+            bad.append(("checker-aborted", f"{kind}: {e}"))
+        except ISO.Stalled:
+            pass
+        except ISO.RemoteError as e:
+            bad.append(("judge-error", str(e)[:300]))
+    try:
+        sb, uses_custom = _j_struct(m, custom_keys)
+    except Exception as e:  # noqa: BLE001
+        sb, uses_custom = [("judge-error", f"walker: {type(e).__name__}: {e}")], False
+    bad += sb
+    if want_ort and not uses_custom:
+        try:
+            ob, unsupported = ISO.call(_j_ort, m)
+            ORT_UNSUPPORTED.extend(unsupported)
+            bad += [tuple(b) for b in ob]
+        except ISO.Aborted as e:
+            bad.append(("runtime-aborted", f"onnxruntime session: {e}"))
+        except ISO.Stalled:
+            pass
+        except ISO.RemoteError as e:
+            bad.append(("judge-error", str(e)[:300]))
+    return bad  # (judges that died together but not one by one: no verdict)
 
 
 ORT_UNSUPPORTED: list = []
 
 
-def run_ort(m, feeds):
+def _run_ort_raw(m, feeds):
     import onnxruntime as ort
 
     so = ort.SessionOptions()
@@ -881,13 +947,34 @@ def run_ort(m, feeds):
     return {o.name: v for o, v in zip(s.get_outputs(), outs)}
 
 
-def run_reference(m, feeds):
+def run_ort(m, feeds):
+    """in a forked child; raises lib_isolate.Aborted when onnxruntime kills the process"""
+    from harness import lib_isolate as ISO
+
+    return ISO.call(_run_ort_raw, m, feeds)
+
+
+def _run_reference_raw(m, feeds):
     from onnx.reference import ReferenceEvaluator
 
     s = ReferenceEvaluator(callee_first(m))
     names = [i.name for i in m.graph.input]
     outs = s.run(None, {n: feeds[n] for n in names})
     return {o.name: np.asarray(v) for o, v in zip(m.graph.output, outs)}
+
+
+def run_reference(m, feeds):
+    from harness import lib_isolate as ISO
+
+    return ISO.call(_run_reference_raw, m, feeds)
+
+
+def check_full(m):
+    """onnx.checker.check_model(full_check=True) in a forked child (raises RemoteError / Aborted)"""
+    import onnx
+    from harness import lib_isolate as ISO
+
+    return ISO.call(onnx.checker.check_model, m, full_check=True)
 
 
 def harvest_names(m, nested_values_only=False):
